@@ -304,8 +304,17 @@ def run(pm, ctx):
     ok_ar = stores.get('self.routes') == [[]] and \
         stores.get('self.route_by_name') == [[('route.version == 1', True)]] and \
         stores.get('self.routes_by_name[route.name].at_version') == [[]]
+    foreign = [t for t in stores if t not in ('self.routes', 'self.route_by_name',
+                                              'self.routes_by_name',
+                                              'self.routes_by_name[route.name].at_version')]
+    for n in own_nodes(ar.node):
+        if isinstance(n, ast.Call) and isinstance(n.func, ast.Attribute) and \
+                n.func.attr in ('setdefault', 'update', 'insert', 'extend') and \
+                unparse(n.func.value).startswith('self.'):
+            foreign.append(unparse(n.func.value))
+    ok_ar = ok_ar and not foreign
     ctx.check('C19-R3', ok_ar, 'add_route: routes and routes_by_name always, route_by_name exactly '
-              'for version 1', ar.loc,
+              'for version 1, and nothing but the given route is registered', ar.loc,
               msg='ApiNamespace.add_route fills its tables under %s: after pruning, the by-name '
                   'tables disagree with the route list' % stores,
               key='C19-R3|%s' % ar.qualname)
